@@ -83,4 +83,22 @@ PROPS['C09'] = dict(
     not_decided=['LB_Keogh <= DTW and DTW <= ED as inequalities over the specification (Lean lemmas L4/L5 pending)'],
 )
 
+PROPS['C01'] = dict(
+    modules=['contracts.dtw_py'],
+    contracts=['dtw.distance'],
+    lemmas=['BufFold', 'BufFold2', 'RowAllInf', 'RowLeadInf'],
+    level='proof',
+    level_text='The real dtw.distance (rolling two-row buffer, window, penalty, max_step, begin- and end-psi as int or '
+               '4-tuple, max_length_diff, both built-in inner distances, through the real DTWSettings / inner_dist_fns '
+               'code) is proved, for all lengths and values, to return result_fn of the accumulated-cost recurrence W '
+               'read at the psi-relaxed end; W = optimum over admissible warping paths is the Bellman lemma (Lean).',
+    level_note='Trusted: dvc Python semantics (A1), array/NumPy min as left fold (A3), pow(d,2)==d*d (A3), order axioms '
+               'of non-NaN doubles (level O), solvers (A7). max_dist / use_pruning are C03 and are excluded here by '
+               'precondition; user-supplied inner-distance objects are not yet covered.',
+    trusted_base=[PY_A1, A3_NUMPY, A7],
+    assumptions=[PY_A1, A3_NUMPY, A7],
+    not_decided=['max_dist and use_pruning (C03)', 'user-supplied inner distance object',
+                 'W == optimum over warping paths: Lean lemma specs/lean/Bellman.lean (checked by setup)'],
+)
+
 NOT_APPLICABLE = {p: 'not decided yet: machinery for this property is still being built (see DESIGN.md §9 order of work)' for p in ['C01', 'C02', 'C03', 'C04', 'C05', 'C06', 'C07', 'C08', 'C09', 'C10', 'C11', 'C12', 'C13', 'C14', 'C15', 'C16', 'C17', 'C18', 'C19', 'C20'] if p not in PROPS}
